@@ -221,7 +221,7 @@ structure CtlInv (st : LState τ) : Prop where
   compl : st.ctl.sched.collection ≠ none → Load.collectionIsCompleted st.ctl.sched = true
   nodup : (AList.keys st.ctl.sched.node2pending).Nodup
   keysLt : ∀ m ∈ AList.keys st.ctl.sched.node2pending, m < st.ctl.nextId
-  flagsLt : ∀ m ∈ AList.keys st.ctl.env.flags, m < st.ctl.nextId
+  flagsLt : ∀ m ∈ AList.keys st.ctl.env.flags, st.ctl.nextId ≤ m → st.ctl.env.flags.get m = {}
 
 instance (st : LState τ) : Decidable (CtlInv st) :=
   decidable_of_iff
@@ -233,7 +233,7 @@ instance (st : LState τ) : Decidable (CtlInv st) :=
      (st.ctl.sched.collection.isNone = false → Load.collectionIsCompleted st.ctl.sched = true) ∧
      (AList.keys st.ctl.sched.node2pending).Nodup ∧
      (∀ m ∈ AList.keys st.ctl.sched.node2pending, m < st.ctl.nextId) ∧
-     (∀ m ∈ AList.keys st.ctl.env.flags, m < st.ctl.nextId))
+     (∀ m ∈ AList.keys st.ctl.env.flags, st.ctl.nextId ≤ m → st.ctl.env.flags.get m = {}))
     (by
       constructor
       · rintro ⟨h1, h2, h3, h3', h4, h5, h6, h7, h8, h9, h10⟩
